@@ -135,6 +135,61 @@ Proof.
   apply andb_true_iff in H. destruct H as [H1 H2]. apply String.eqb_eq in H1, H2. subst. reflexivity.
 Qed.
 
+
+(* ---- the warning filter (pseudo-class WARN of the store) *)
+Lemma warn_free_find : warn_free T = true -> find_class T WARN = None.
+Proof.
+  intros H. destruct (find_class T WARN) as [e|] eqn:Ef; [|reflexivity]. exfalso.
+  unfold find_class in Ef. apply find_class_in_spec in Ef. destruct Ef as [Hin Hn].
+  unfold warn_free in H. rewrite forallb_forall in H. specialize (H e Hin). rewrite Hn in H.
+  destruct (chain_head WARN) as [r Hr]. rewrite Hr in H.
+  rewrite (In_mem_str WARN (WARN :: r) (or_introl eq_refl)) in H. discriminate.
+Qed.
+
+Lemma chain_WARN : warn_free T = true -> chain T WARN = [WARN].
+Proof.
+  intros H. pose proof (warn_free_find H) as Ef.
+  assert (Hb : base_of T WARN = None) by (unfold base_of; rewrite Ef; reflexivity).
+  unfold chain. destruct (List.length T); cbn; [|rewrite Hb]; reflexivity.
+Qed.
+
+Lemma warn_free_chain : warn_free T = true -> forall c, c <> WARN -> ~ In WARN (chain T c).
+Proof.
+  intros H c Hne Hin. destruct (find_class T c) as [e|] eqn:Ef.
+  - unfold find_class in Ef. apply find_class_in_spec in Ef. destruct Ef as [HinT Hn].
+    unfold warn_free in H. rewrite forallb_forall in H. specialize (H e HinT). rewrite Hn in H.
+    rewrite (In_mem_str _ _ Hin) in H. discriminate.
+  - assert (Hb : base_of T c = None) by (unfold base_of; rewrite Ef; reflexivity).
+    unfold chain in Hin. destruct (List.length T); cbn in Hin; [|rewrite Hb in Hin];
+      destruct Hin as [Hin|[]]; apply Hne; auto.
+Qed.
+
+Lemma first_slot_unesc : forall G G2 cs a, ~ In WARN cs -> first_slot (unescalate G G2) cs a = first_slot G2 cs a.
+Proof.
+  induction cs as [|x r IH]; intros a H; cbn; [reflexivity|].
+  unfold unescalate at 1. destruct (String.eqb_spec x WARN) as [E|E]; [exfalso; apply H; left; exact E|].
+  rewrite IH; [reflexivity|]. intros Hin. apply H. right. exact Hin.
+Qed.
+Lemma first_slot_esc : forall b G cs a, ~ In WARN cs -> first_slot (escalate b G) cs a = first_slot G cs a.
+Proof.
+  induction cs as [|x r IH]; intros a H; cbn; [reflexivity|].
+  unfold escalate at 1. destruct (String.eqb_spec x WARN) as [E|E]; [exfalso; apply H; left; exact E|].
+  rewrite IH; [reflexivity|]. intros Hin. apply H. right. exact Hin.
+Qed.
+
+Lemma lookup_v_esc : warn_free T = true -> forall b G c a, c <> WARN ->
+  lookup_v T (escalate b G) c a = lookup_v T G c a.
+Proof.
+  intros H b G c a Hne. unfold lookup_v, lookup. rewrite first_slot_esc by (apply warn_free_chain; assumption). reflexivity.
+Qed.
+Lemma lookup_v_unesc : warn_free T = true -> forall G G2 c a,
+  lookup_v T (unescalate G G2) c a = if String.eqb c WARN then lookup_v T G c a else lookup_v T G2 c a.
+Proof.
+  intros H G G2 c a. destruct (String.eqb_spec c WARN) as [E|E].
+  - subst c. unfold lookup_v, lookup. rewrite (chain_WARN H). cbn [first_slot]. unfold unescalate. rewrite String.eqb_refl. reflexivity.
+  - unfold lookup_v, lookup. rewrite first_slot_unesc by (apply warn_free_chain; assumption). reflexivity.
+Qed.
+
 (* the visible store: what every class shows for every attribute that is not a documented cache *)
 Definition vis_eq (G G' : store) : Prop :=
   forall c a, cache c a = false -> lookup_v T G' c a = lookup_v T G c a.
@@ -146,7 +201,7 @@ Theorem run_inv : forall p G G' o tr,
   (forall s, In s tr -> forall c a, ~ In c (footprint comp p) -> cache c a = false ->
                         lookup_v T s c a = lookup_v T G c a).
 Proof.
-  induction p as [|p1 IH1 p2 IH2|c args body IHb| |]; intros G G' o tr Hok Hrun; cbn [run] in Hrun.
+  induction p as [|p1 IH1 p2 IH2|c args body IHb| | |b body IHe|body IHt]; intros G G' o tr Hok Hrun; cbn [run] in Hrun.
   - inversion Hrun; subst. repeat split; try discriminate; try (intros ? []); intros ? ? ?; reflexivity.
   - cbn [prog_ok] in Hok. apply andb_true_iff in Hok. destruct Hok as [Hok1 Hok2].
     destruct (run T p1 G) as [[G1 o1] tr1] eqn:E1.
@@ -210,6 +265,35 @@ Proof.
   - inversion Hrun; subst. repeat split; try discriminate; try (intros ? []); intros ? ? ?; reflexivity.
   - inversion Hrun; subst. split; [discriminate|]. split; [intros ? ? ?; reflexivity|].
     intros s [Hs|[]] c0 a _ _. subst. reflexivity.
+  - (* PEsc: the body runs under the changed filter; leaving the block puts the filter back *)
+    cbn [prog_ok] in Hok. apply andb_true_iff in Hok. destruct Hok as [Hwf Hokb].
+    destruct (run T body (escalate b G)) as [[G2 o2] tr2] eqn:E2. inversion Hrun; subst.
+    destruct (IHe _ _ _ _ Hokb E2) as [Hs [Hv Hf]].
+    split; [exact Hs|]. split.
+    + intros c0 a Hc. rewrite (lookup_v_unesc Hwf). destruct (String.eqb_spec c0 WARN) as [E|E]; [reflexivity|].
+      rewrite (Hv c0 a Hc). apply lookup_v_esc; assumption.
+    + intros s Hin c0 a Hnf Hc. cbn [footprint] in Hnf.
+      rewrite (Hf s Hin c0 a) by (auto; intros H; apply Hnf; right; exact H).
+      apply lookup_v_esc; [assumption|]. intros E. apply Hnf. left. symmetry. exact E.
+  - (* PTry *)
+    cbn [prog_ok] in Hok. destruct (run T body G) as [[G1 o1] tr1] eqn:E1. inversion Hrun; subst.
+    destruct (IHt _ _ _ _ Hok E1) as [Hs [Hv Hf]].
+    split; [destruct o1; [discriminate|discriminate|exact Hs]|]. split; [exact Hv|exact Hf].
+Qed.
+
+(* a with-header that fails -- constructor or __enter__ raise, for whatever reason, an escalated warning
+   included -- leaves the store UNTOUCHED (not merely the visible values) and runs nothing *)
+Lemma failed_entry_inv : forall c args body G,
+  class_ok T comp cache c = true -> enters T c args G = false ->
+  run T (PWith c args body) G = (G, ORaised, []).
+Proof.
+  intros c args body G Hcls He. cbn [run]. unfold enters in He.
+  destruct (args_valid T c args); cbn [negb andb] in *; [|reflexivity].
+  unfold class_ok in Hcls.
+  pose proof (explore_sound _ QFUEL (fun fs => symA T fs c) (chkA T comp cache c) (holds T args G G) [] Hcls) as HA.
+  destruct (conc QFUEL (holds T args G G) (fun fs => symA T fs c) []) as [rA fsA]. cbn [fst snd] in HA, He.
+  destruct rA as [[W|W|ob WA]|W|q|s]; cbn [chkA] in HA; try discriminate;
+    destruct W; try discriminate; reflexivity.
 Qed.
 
 (* what Setting.m(..) returns depends on the store only through the visible values *)
